@@ -673,6 +673,25 @@ pub fn gen_obj(rng: &mut Prng, w: &World, kind: &str) -> Option<Obj> {
                 Obj::VecModulus(w.spec.q.clone())
             }
         }
+        // beyond 2^16 elements (a length a "pre-allocation limit" might be confused with)
+        "hugevec" | "hugeplain" => {
+            let len = match rng.below(4) {
+                0 => 65_537,
+                1 => 65_536,
+                2 => rng.range(65_530, 66_000),
+                _ => rng.range(70_000, 140_000),
+            };
+            if kind == "hugeplain" && w.spec.scheme != CKKS {
+                let mut p = Plaintext::new();
+                p.resize(len);
+                for i in 0..len {
+                    p.data_mut()[i] = rng.below(w.spec.t);
+                }
+                Obj::Plain(p)
+            } else {
+                Obj::VecU64((0..len).map(|_| rng.next_u64() >> rng.below(64)).collect())
+            }
+        }
         "params" => Obj::Params(w.parms.clone()),
         "parmsid" => Obj::ParmsId(*rng.pick(&w.data_levels())),
         "plain" => Obj::Plain(gen_plain_any(rng, w)),
@@ -701,7 +720,26 @@ pub fn gen_obj(rng: &mut Prng, w: &World, kind: &str) -> Option<Obj> {
             let m = 2 * n;
             let count = rng.range(0, 3);
             let elts: Vec<usize> = (0..count).map(|_| 2 * rng.usize_below(m / 2) + 1).collect();
-            Obj::Galois(w.keygen.create_galois_keys_from_elts(&elts, rng.coin()))
+            let a = w.keygen.create_galois_keys_from_elts(&elts, rng.coin());
+            if count >= 1 && rng.chance(1, 3) {
+                // a set assembled from two generations (entries seeded and expanded side by side):
+                // the entries of a second set are written over / next to those of the first
+                let more: Vec<usize> = (0..rng.range(1, 2)).map(|_| 2 * rng.usize_below(m / 2) + 1).collect();
+                let b = w.keygen.create_galois_keys_from_elts(&more, rng.coin());
+                let mut ks = a.as_kswitch_keys().clone();
+                let bk = b.as_kswitch_keys();
+                if bk.data().len() > ks.data().len() {
+                    ks.data_mut().resize(bk.data().len(), Vec::new());
+                }
+                for (i, entry) in bk.data().iter().enumerate() {
+                    if !entry.is_empty() {
+                        ks[i] = entry.clone();
+                    }
+                }
+                Obj::Galois(GaloisKeys::new(ks))
+            } else {
+                Obj::Galois(a)
+            }
         }
         "poly" => {
             if w.spec.scheme != CKKS && rng.coin() {
